@@ -636,15 +636,15 @@ var assumptionText = map[string]string{
 	"A-REAL":    "in real-mode clauses machine arithmetic is treated as mathematical",
 	"A-MATHINT": "64-bit integer arithmetic treated as mathematical in math-int modes",
 	"A-POW":     "math.Pow is a deterministic pure function; Pow(x,3)=x*x*x in real mode",
-	"A-IO":      "documented contracts of io.Reader/ByteReader, bufio.Reader, bytes.Reader, io.ReadFull, bytes.Buffer",
-	"A-STD":     "fmt.Errorf/errors.New return non-nil; fmt.Sprintf, time.Date, utf16.Decode are pure functions of their arguments",
+	"A-IO":      "documented contracts of io.Reader/ByteReader (short reads, final data together with the end-of-data error), bufio.Reader, bytes.Reader, io.ReadFull (EOF vs ErrUnexpectedEOF), io.CopyN, io.TeeReader, io.MultiReader, bytes.Buffer",
+	"A-STD":     "fmt.Errorf/errors.New return non-nil; fmt.Sprintf, time.Date, utf16.Decode, bytes.Equal/HasPrefix are pure functions of their arguments; log.Print*/fmt.Print* have no effect on the verified state; range over a map visits present keys and terminates",
 	"A-ZLIB":    "zlib.NewReader/io.Copy inflate exactly the bytes handed to them or report an error",
-	"A-IMG":     "representation invariants of image.* types; color.Color.RGBA returns alpha-premultiplied 16-bit channels",
+	"A-IMG":     "representation invariants of image.* types (every row of Rect lies within Pix, distinct pixels have disjoint footprints); image.NewX(r) returns a fresh zeroed image with Rect == r; draw.Draw and an arbitrary draw.Image's Set per their documentation; color.Color.RGBA returns alpha-premultiplied 16-bit channels",
 	"A-DET":     "assumed contract clauses (kind `assumes`): each extractMetadata result is a deterministic function of the bytes of its input",
 	"A-STDSRC":  "integer-only standard library functions (image.*.PixOffset, At/Set accessors, color conversions) are executed symbolically from the installed standard library's source",
 	"A-FRAME":   "a function called through its contract may change scalar contents of the objects reachable from its arguments but does not reassign their pointer/interface-valued fields",
 	"A-APPEND":  "the result of append is a fresh backing array holding the old elements followed by the new ones; sharing of spare capacity with the argument slice is not modelled",
-	"A-PAR":     "sync.Once.Do and parallel.RunWorkers behave as documented",
+	"A-PAR":     "sync.Once.Do as documented; parallel.RunWorkers(n, f) runs f(0,n')...f(n'-1,n') once each for some 1 <= n' <= 65536 and returns after all have",
 }
 
 func explanationFor(id string) string {
